@@ -105,6 +105,31 @@ CHECKS.update({
     ),
 })
 
+CHECKS.update({
+    "C06": dict(
+        engine="Lifecycle", category="model_checking",
+        text=("Lifecycle.tla transcribes the session receive path (validateRequestMeta, ServerSession.handle, initialize/initialized, discover) as a step function over a "
+              "167-letter message alphabet and states C06 as seven clauses over a phase tracker that sees only messages and replies. TLC checks the clauses on the complete "
+              "(state x message) table and on every core-letter sequence up to length 3 (quick) / 4 (thorough), and generates table cells, transition-cover walks, all core "
+              "sequences and seeded length-8 simulations; these are replayed on a real mcp.Server with every user-visible handler instrumented (raw io pipes, in-memory, "
+              "stateful streamable HTTP in process) under synctest; the TLA+ monitor LifecycleMon gives the verdict."),
+        design_ref="DESIGN.md section 6 C06, 5.3",
+        note="Trusted: TLC + Json module; the harness' concretisation of abstract letters and classification of replies; synctest quiescence as 'no reply'; the instrumented handler set as 'reaches server-side handlers'.",
+        technique="TLA+ spec + TLC (exhaustive table, bounded sequences, simulation); sequences replayed on real sessions; TLA+ monitor",
+    ),
+    "C17": dict(
+        engine="Paginate", category="model_checking",
+        text=("Paginate.tla models the feature set with its lazily rebuilt sorted index, the keyset pagination of paginateList and the client iterator; TLC checks exactly-once, "
+              "stable order, termination with an empty cursor, bad-cursor rejection and iterator = manual paging exhaustively for 5 ids, page sizes 1-3, <=2 (quick) / <=4 (thorough) "
+              "mutations. Every edge of the reduced state graph is replayed on a real Server + Client for tools, prompts, resources and templates, with seeded random histories, "
+              "iterator replays and thousands of issued, stale, forged and arbitrary cursor strings; every page, iterator output and cursor outcome is judged by the TLA+ monitor "
+              "PaginateMon and the strict trace spec PaginateTrace; thorough adds -race."),
+        design_ref="DESIGN.md section 6 C17",
+        note="Trusted: TLC; projection of pages through the public API; the harness' reference codec for the cursor format (defines 'malformed'); 5 ids per server; 20 s real-time deadline for hang detection.",
+        technique="TLA+ spec + TLC exhaustive; transition-cover replay and trace validation on the real server/client; seeded cursor fuzzing judged by the monitor",
+    ),
+})
+
 NOT_YET = "check not built yet in this round (planned with the same technique; see DESIGN.md section 6)"
 
 def main():
